@@ -70,7 +70,7 @@ def gen_journal(rng):
         elif r < 0.99:
             x = X.gen_virtual_lot(rng, elide=rng.random() < 0.5)
         elif r < 0.995:
-            x = X.gen_implied_rate_with_cancel(rng)
+            x = X.gen_implied_rate_with_cancel(rng) if rng.random() < 0.5 else X.gen_implied_rate_with_virtual(rng)
         else:
             x = X.add_null(rng, X.gen_balanced(rng, with_costs=False))
         x.date = '2020/%02d/%02d' % (rng.randrange(1, 13), rng.randrange(1, 29))
@@ -80,6 +80,8 @@ def gen_journal(rng):
 
 def run_one(ctx, res, j, xs, bucket=None):
     rows, rejected, errs, st, text = X.compare_journal(ctx, res, 'C01', j, xs, bucket)
+    if j % 2 == 0:
+        without_virtual(ctx, res, j, xs, rejected, errs, text)
     for i, x in enumerate(xs):
         impl = X.impl_summary(i, rows, rejected, errs)
         # ---- oracle
@@ -111,6 +113,29 @@ def run_one(ctx, res, j, xs, bucket=None):
         if bad:
             res.violations.append(dict(key='grand-total-nonzero', desc='accepted exactly balanced journal has a non-zero total at cost: %s' % bad,
                                        case=dict(journal=text), observed=str(bad), required='zero in every commodity'))
+
+
+def without_virtual(ctx, res, j, xs, rejected, errs, text):
+    """"(virtual) postings need not balance": the same journal without its (parenthesised) postings accepts and rejects
+    exactly the same transactions (judged on ledger's behaviour alone; which transactions are rejected and why)"""
+    if not any(p.kind == 'V' for x in xs for p in x.posts):
+        return
+    ys = []
+    for x in xs:
+        ps = [p for p in x.posts if p.kind != 'V']
+        ys.append(X.Xact(ps, x.date) if ps else None)
+    if any(y is None for y in ys):
+        return
+    text2 = X.render_journal(ys)
+    st, out, err, path = X.run_ledger_journal(ctx, 'C01_nov_%d.dat' % (j % 4), text2)
+    errs2 = X.parse_errors(err, path, text2)
+    rej2 = set(k for k in errs2 if isinstance(k, int))
+    res.evaluations += 1
+    res.count('without-virtual:compared')
+    for i in sorted(set(rejected) ^ rej2):
+        res.violations.append(dict(key='virtual-posting-decides-acceptance', desc='transaction x%d is %s with its (virtual) postings and %s without them'
+                                   % (i, 'rejected (%s)' % errs.get(i) if i in rejected else 'accepted', 'rejected (%s)' % errs2.get(i) if i in rej2 else 'accepted'),
+                                   case=dict(journal=text, xact=i, without_virtual=text2), observed='acceptance differs', required='the same acceptance'))
 
 
 def exit_status_across_files(ctx, res, rng, j, xs):
